@@ -10,6 +10,7 @@
 //   MSG <text>                    (error message, one line)
 //   D <field> <first idx> <n> <count> <a %.17g> <b %.17g> <max scaled difference over the array>
 //   DC <n>                        number of don't-care components that differed (see c32_cmp.h)
+//   AB <n> <bound>                comparisons decided by the absolute length-scale bound (limited precision only)
 //   FIX <0|1>                     second generation text identical to the first (save(parse(save x)) == save x)
 //   D3 ...                        differences between 2nd and 3rd generation models (must be none, bit-exact)
 //   XML <nbytes>\n<bytes>\n       saved text of the first generation
@@ -84,7 +85,13 @@ static void RunCase(const char* id, int prec, int dump, mjSpec* s1) {
     m2 = mj_compile(s2, nullptr);
     if (!m2) { std::printf("CASE %s fail:recompile\nMSG %s\n", id, OneLine(mjs_getError(s2)).c_str()); bad = true; break; }
     C32Cmp c;
-    if (prec < 17) { c.mode = 1; c.rtol = 2e-5; c.atol = 1e-9; }
+    if (prec < 17) {
+      // printed precision: 20 units of the last printed digit, relative to the entry for directly written
+      // values, relative to the model's length scale for position-like sums (see c32_cmp.h)
+      c.mode = 1; c.rtol = 20 * std::pow(10.0, -prec); c.atol = 1e-9;
+      c.atol_pos = c.rtol * c32_length_scale(m1);
+      c32_free_translation_mask(m1, c.qmask);
+    }
     long dontcare = 0;
     {
       mjModel* m1c = mj_copyModel(nullptr, m1);
@@ -95,7 +102,7 @@ static void RunCase(const char* id, int prec, int dump, mjSpec* s1) {
     }
     // second generation
     bool fix = false; C32Cmp c3; std::string err2;
-    c3.mode = c.mode; c3.rtol = c.rtol; c3.atol = c.atol;
+    c3.mode = c.mode; c3.rtol = c.rtol; c3.atol = c.atol; c3.atol_pos = c.atol_pos; c3.qmask = c.qmask;
     bool gen2 = Save(s2, x2, err2);
     if (gen2) {
       fix = (x1 == x2);
@@ -108,9 +115,11 @@ static void RunCase(const char* id, int prec, int dump, mjSpec* s1) {
     std::printf("CASE %s %s\n", id, c.diffs.empty() ? "ok" : "diff");
     PrintDiffs("D", c);
     std::printf("DC %ld\n", dontcare);
+    std::printf("AB %ld %.3g\n", c.nabs, c.atol_pos);
     if (!gen2) std::printf("MSG save of second generation failed: %s\n", err2.c_str());
     std::printf("FIX %d\n", fix ? 1 : 0);
     PrintDiffs("D3", c3);
+    if (c3.nabs) std::printf("AB %ld %.3g\n", c3.nabs, c3.atol_pos);
   } while (0);
   if (dump == 3 && m2) {
     for (int j = 0; j < m2->njnt; j++) {
